@@ -26,8 +26,11 @@ VERIF = os.path.dirname(os.path.dirname(os.path.abspath(__file__)))
 REPO = os.environ.get("VERIF_REPO", "/repo")
 COQ = os.path.join(VERIF, "coq")
 THEORIES = os.path.join(COQ, "theories")
-EVIDENCE = os.path.join(VERIF, "evidence")
-REPLAY = os.path.join(VERIF, "replay")
+# trial runs against a scratch worktree (VERIF_REPO set) must not overwrite the
+# evidence of /repo itself
+_TRIAL = os.path.realpath(REPO) != "/repo"
+EVIDENCE = os.path.join(VERIF, "scratch", "evidence") if _TRIAL else os.path.join(VERIF, "evidence")
+REPLAY = os.path.join(VERIF, "scratch", "replay") if _TRIAL else os.path.join(VERIF, "replay")
 PY = "/venv/bin/python"
 
 FORBIDDEN = re.compile(
